@@ -59,6 +59,18 @@ template<typename T, typename W> struct FiFam {
     (void)o.get_serialized_size_bytes(IK::serde(nullptr));
   }
   static const bool HAS_MERGE_REF = true, HAS_MERGE_MOVE = true, HAS_RESET = false, HAS_ROUNDTRIP = true;
+  // x.merge(x): every counter, the total weight and the error offset double; no key is added, so nothing is purged
+  static const int SELF_MERGE = SM_DOUBLES;
+  static SelfMergeFacts self_merge_facts(const Obj& o, const Cfg&) {
+    SelfMergeFacts f;
+    double est = 0, lb = 0;
+    std::string items;
+    auto rows = o.get_frequent_items(NO_FALSE_NEGATIVES, static_cast<W>(0));
+    for (auto& row : rows) { est += static_cast<double>(row.get_estimate()); lb += static_cast<double>(row.get_lower_bound()); }
+    f.doubles = {static_cast<double>(o.get_total_weight()), static_cast<double>(o.get_maximum_error()), est, lb};
+    f.same = "active=" + std::to_string(o.get_num_active_items()) + " rows=" + std::to_string(rows.size());
+    return f;
+  }
   static void merge_ref(Obj& d, const Obj& s, const Cfg&) { d.merge(s); }
   static void merge_move(Obj& d, Obj&& s, const Cfg&) { d.merge(std::move(s)); }
   static void reset(Obj&, const Cfg&) {}
